@@ -5,7 +5,7 @@ from __future__ import annotations
 import ast
 from pathlib import Path
 
-from lcmsa.alg import METHODS, _short, first_difference, lib_op, norm
+from lcmsa.alg import METHODS, _short, first_difference, hoist, lib_op, norm
 from lcmsa.core import AnalysisError, callee_name, is_term, walk
 from lcmsa.report import Ctx, rule
 
@@ -686,7 +686,7 @@ def compare_factory(ctx: Ctx, actual_q: str, ref_name: str, what: str, *, soft: 
     pr, gr = pieces(fr, ref_q, cr, "r", ir)
     ctx.count("kernels")
     if soft:
-        _soft_verdict(ctx, prog, key, where, what, pa, pr, ga, gr, lambda t, is_ref: norm(prep(t, idx_a if not is_ref else idx_r, is_ref)))
+        _soft_verdict(ctx, prog, key, where, what, pa, pr, ga, gr, lambda t, is_ref: hoist(norm(prep(t, idx_a if not is_ref else idx_r, is_ref))))
         return
     if [l for l, _ in pa] != [l for l, _ in pr]:
         ctx.undecided(key, f"{what}: loop structure / loop-carried names differ from the reference", where)
@@ -696,7 +696,7 @@ def compare_factory(ctx: Ctx, actual_q: str, ref_name: str, what: str, *, soft: 
     total_sites, total_size = 0, 0
     for (label, ta), (_l, tr) in zip(pa, pr, strict=True):
         ra, rr = prep(ta, idx_a, False), prep(tr, idx_r, True)
-        a, r = norm(ra), norm(rr)
+        a, r = hoist(norm(ra)), hoist(norm(rr))
         vocab = vocab and in_vocab(ra)
         if a != r:
             n_sites, sz = diff_sites(a, r)
@@ -704,8 +704,8 @@ def compare_factory(ctx: Ctx, actual_q: str, ref_name: str, what: str, *, soft: 
             total_size += sz
             if bad is None:
                 bad = (label, first_difference(a, r, label), ra, rr)
-    na_g = [(tuple(norm(prep(c, idx_a, False)) for c in conds if c[0] != "in-loop"), _exc_class(e)) for conds, e in ga]
-    nr_g = [(tuple(norm(prep(c, idx_r, True)) for c in conds if c[0] != "in-loop"), _exc_class(e)) for conds, e in gr]
+    na_g = [(tuple(hoist(norm(prep(c, idx_a, False))) for c in conds if c[0] != "in-loop"), _exc_class(e)) for conds, e in ga]
+    nr_g = [(tuple(hoist(norm(prep(c, idx_r, True))) for c in conds if c[0] != "in-loop"), _exc_class(e)) for conds, e in gr]
     if na_g != nr_g and guards_equivalent(na_g, nr_g):
         nr_g = na_g  # same decision function over the same atomic conditions
     if na_g != nr_g:
